@@ -94,6 +94,38 @@ def encode (c : Compiled) : Emitted :=
       markLast codes)
   { headroom := hr, slotsN, encN := vt.length, decN, dtblN := dt.length, slots, vtbls := vt, dtbls := dt }
 
+/-! ## what fits
+
+Every value is emitted on 16 bits, some along with one or two flags; `encode_dispatch_data` checks each
+value against its field as it emits it and throws instead of emitting a value that would decode to
+something else. -/
+
+def wordLimit : Nat := 65536
+
+/-- the codes of one v-table entry fit: a group index beside the index and stop flags; a method index that
+    cannot be taken for an index code, then a definition or group index beside the stop flag -/
+def entryFits (c : Compiled) (e : Entry) : Bool :=
+  if e.vp ≠ 0 then decide (e.group < indexBit)
+  else
+    let ar := ((c.methods[e.method]?).map (fun m => m.vp.length)).getD 0
+    let nspecs := ((c.methods[e.method]?).map (fun m => m.specs.length)).getD 0
+    decide (e.method < indexBit) &&
+    (if ar == 1 then
+      let cell := (((c.outs[e.method]?).bind (fun o => o.table[e.group]?)).map (·.1)).getD .ni
+      decide (cellIndex nspecs cell < stopBit)
+    else decide (e.group < stopBit))
+
+/-- every value `encode` emits fits its field -/
+def fits16 (c : Compiled) : Bool :=
+  (encode c).slots.all (fun w => decide (w < wordLimit)) &&
+  (List.range c.vtbl.length).all (fun k => decide (c.slots.first.get k < stopBit)) &&
+  c.vtbl.all (fun row => row.all (entryFits c)) &&
+  (c.methods.zip c.outs).all (fun mo =>
+    decide (mo.1.vp.length < 2) || mo.2.table.all (fun cell => decide (cellIndex mo.1.specs.length cell.1 < stopBit)))
+
+/-- `encode_dispatch_data`: the emitted structure, or a refusal (`std::length_error`) -/
+def encodeChecked (c : Compiled) : Option Emitted := if fits16 c then some (encode c) else none
+
 /-! ## decoding -/
 
 /-- a decoded word: function (method, cell), pointer to `dtbls[i]`, or a number -/
